@@ -493,14 +493,35 @@ impl OtlpTransportBuilder {
                         let metrics = metrics.clone();
 
                         async move {
-                            let mut status = 0;
-                            let mut msg = String::new();
+                            // A response that never reached a gRPC server (like a 502 from a proxy)
+                            // doesn't carry a grpc-status at all; it's still a failed request
+                            let http_status = res.http_status();
+
+                            if http_status < 200 || http_status >= 300 {
+                                metrics.grpc_batch_failed.increment();
+
+                                return Err(Error::msg(format_args!(
+                                    "OTLP gRPC server responded with HTTP status {http_status}"
+                                )));
+                            }
+
+                            // A server may fail a request without a body by sending its status
+                            // in the response headers instead of trailers ("Trailers-Only")
+                            // A status that can't be parsed is not a success
+                            let mut status = res
+                                .http_header("grpc-status")
+                                .map(|v| v.parse().unwrap_or(2))
+                                .unwrap_or(0);
+                            let mut msg = res
+                                .http_header("grpc-message")
+                                .map(String::from)
+                                .unwrap_or_default();
 
                             res.stream_payload(
                                 |_| {},
                                 |k, v| match k {
                                     "grpc-status" => {
-                                        status = v.parse().unwrap_or(0);
+                                        status = v.parse().unwrap_or(2);
                                     }
                                     "grpc-message" => {
                                         msg = v.into();
